@@ -52,8 +52,10 @@ struct Cont
     explicit Cont(int id) : id(id) {}
     Cont(const Cont& o) : v(), id(o.id), moved_from(o.moved_from) { copies()++; if constexpr (std::is_copy_constructible_v<T>) v = o.v; }
     Cont(Cont&& o) noexcept : v(std::move(o.v)), id(o.id), moved_from(o.moved_from) { o.moved_from = true; }
-    void push_back(const T& x) { if constexpr (std::is_copy_constructible_v<T>) v.push_back(x); }
-    void emplace_back(T&& x) { v.emplace_back(std::move(x)); }
+    int pb_calls = 0, eb_calls = 0;      // README: push_back "calls push_back on" the list, emplace_back "works similarly" (calls emplace_back: direct-initialisation, explicit constructors count)
+    void push_back(const T& x) { ++pb_calls; if constexpr (std::is_copy_constructible_v<T>) v.push_back(x); }
+    void push_back(T&& x) { ++pb_calls; v.push_back(std::move(x)); }
+    void emplace_back(T&& x) { ++eb_calls; v.emplace_back(std::move(x)); }
 };
 
 // argument categories: 0 all rvalue (what the parser does), 1 all lvalue, 2 all const lvalue, 3 target rvalue / others lvalue, 4 target lvalue / others rvalue
@@ -198,6 +200,8 @@ void back_one(Run& r, std::index_sequence<I...>)
             if (Cont<T>::copies() != 0) r.fail(Run::where((std::string(kind) + " copied the container").c_str(), K, C, A, Cat));
             if (cont.v.size() != before + 1 || cont.v.back().id != want) r.fail(Run::where((std::string(kind) + " did not append the A-th argument to the C-th").c_str(), K, C, A, Cat));
             if (Emplace && cnt().copies) r.fail(Run::where("emplace_back copied the element", K, C, A, Cat));
+            if (Emplace && !(cont.eb_calls == 1 && cont.pb_calls == 0)) r.fail(Run::where("emplace_back did not call emplace_back on the container (it used push_back: only implicit conversions to the element type)", K, C, A, Cat));
+            if (!Emplace && !(cont.pb_calls == 1 && cont.eb_calls == 0)) r.fail(Run::where("push_back did not call push_back on the container", K, C, A, Cat));
             if (!others_untouched(args, r.ids, A - 1, C - 1)) r.fail(Run::where((std::string(kind) + " touched another argument").c_str(), K, C, A, Cat));
             if (!Emplace && (args[A - 1].moved_from)) r.fail(Run::where("push_back moved from its (const&) element argument", K, C, A, Cat));
         }
